@@ -511,6 +511,8 @@ func (m *Machine) intrinsic(name string, fn *ssa.Function, args []Value) (Value,
 			return Bool(panicked), true
 		case "Reset":
 			return nil, true
+		case "JSONMembers":
+			return m.jsonMembers(args[0], args[1]), true
 		}
 		panic("unknown verifapi function " + name)
 	}
